@@ -37,15 +37,6 @@ def argToks (args : List String) (i : Nat) : Except String (List STok) := do
 
 def number0 (s : List Char) : List Char := Verif.Model.SvgNum.number s 0
 
-/-- `model.c05b.requests keepComments inline tokens` → flat list `kind, mime, payload, …` of the payloads the loop
-hands to the style minifier (kind 0 element text, 1 CDATA, 2 attribute) and to `ShortenPathData` (kind 3) -/
-def requests : Handler := fun args => do
-  let kc ← argBool args 0
-  let inl ← argBool args 1
-  let ts ← argToks args 2
-  let rs := Verif.Model.SvgDoc.requests number0 ⟨kc, inl⟩ ts
-  .ok (listReply (rs.flatMap fun r => [strBytes (toString r.1), charsToBytes r.2.1, charsToBytes r.2.2]))
-
 structure Answer where
   kind : Nat
   mime : List Char
@@ -72,6 +63,18 @@ def envOf (as : List Answer) : Env :=
       | some a => a.out.getD p
       | none => p
     num := number0 }
+
+/-- `model.c05b.requests keepComments inline tokens answers` → flat list `kind, mime, payload, …` of the payloads the
+loop hands to the style minifier (kind 0 element text, 1 CDATA, 2 attribute) and to `ShortenPathData` (kind 3) when
+the parameters answer as in `answers` (unknown requests: `ErrNotExist` / identity) -/
+def requests : Handler := fun args => do
+  let kc ← argBool args 0
+  let inl ← argBool args 1
+  let ts ← argToks args 2
+  let gs ← argGroups args 3
+  let as ← gs.mapM decodeAnswer
+  let rs := Verif.Model.SvgDoc.requests (envOf as) ⟨kc, inl⟩ ts
+  .ok (listReply (rs.flatMap fun r => [strBytes (toString r.1), charsToBytes r.2.1, charsToBytes r.2.2]))
 
 /-- `model.c05b.minify keepComments inline tokens answers` → output bytes of the model -/
 def minify : Handler := fun args => do
